@@ -399,6 +399,9 @@ func runC03(ctx *common.Ctx) error {
 			{Kind: "COPY", S: 0, Set: "1:2", Box: "b2"}, {Kind: "COPY", S: 0, Set: "2:3", Box: "b2"}, {Kind: "MOVE", S: 0, Set: "1,3", Box: "b2"},
 			{Kind: "COPY", S: 0, Set: "1", Box: "b3"}, {Kind: "SELECT", S: 0, Box: "b2"}, {Kind: "MOVE", S: 0, UID: true, Set: "1:*", Box: "b3"},
 			{Kind: "COPY", S: 0, Set: "1:*", Box: "nobox"}}},
+		{"flag-change-through-other-mailbox-keeps-deleted", 2, []op{sel(0, "b1"), sel(1, "b2"), app(0, "b1", "c1"), app(0, "b1", "c2"),
+			{Kind: "COPY", S: 0, Set: "1:2", Box: "b2"}, sto(0, "1", "+", `\Deleted`), sto(1, "1", "+", "other"), {Kind: "EXPUNGE", S: 0},
+			sto(0, "1", "+", `\Deleted`), sto(1, "2", "=", `\Seen`), {Kind: "CLOSE", S: 0, Box: "b1"}}},
 		{"stale-targets", 2, []op{sel(0, "b1"), sel(1, "b1"), app(0, "b1", "s1"), app(0, "b1", "s2"), {Kind: "COPY", S: 0, Set: "1", Box: "b2"},
 			sto(0, "1", "+", `\Deleted`), {Kind: "EXPUNGE", S: 0}, sto(1, "1", "+", "late"), {Kind: "MOVE", S: 1, Set: "1", Box: "b2"},
 			{Kind: "COPY", S: 1, Set: "1", Box: "b3"}, {Kind: "EXPUNGE", S: 1}}},
@@ -459,6 +462,18 @@ func runC03(ctx *common.Ctx) error {
 			{Kind: "MOVE", Set: "1:*", Box: "b3"},
 			{Kind: "SELECT", Box: "b3"},
 			{Kind: "STORE", Set: "1:*", Act: "-", Flags: []string{"Foo"}}}},
+		{"move+back", []op{
+			{Kind: "MOVE", Set: "1:*", Box: "b3"},
+			{Kind: "SELECT", Box: "b3"},
+			{Kind: "MOVE", Set: "2:3", Box: "b1"},
+			{Kind: "COPY", Set: "1", Box: "b1"}}},
+		{"copy+expunge+back", []op{
+			{Kind: "COPY", Set: "1:*", Box: "b2"},
+			{Kind: "STORE", Set: "1:*", Act: "+", Silent: true, Flags: []string{`\Deleted`}},
+			{Kind: "EXPUNGE"},
+			{Kind: "SELECT", Box: "b2"},
+			{Kind: "COPY", Set: "1:2", Box: "b1"},
+			{Kind: "MOVE", UID: true, Set: "3", Box: "b1"}}},
 		{"uidstore-silent+close", []op{
 			{Kind: "STORE", UID: true, Set: "1:*", Act: "+", Silent: true, Flags: []string{`\Deleted`}},
 			{Kind: "CLOSE", Box: "b1"}}},
@@ -475,7 +490,11 @@ func runC03(ctx *common.Ctx) error {
 			}
 		}
 	} else {
-		batches = append(batches, batchRun{1001, variants[rng.Pick(len(variants))]})
+		// removing 1001 messages in one command and bringing some of them back (the membership index must have been cleaned), plus one other variant
+		back := []variant{variants[4], variants[5]}
+		batches = append(batches, batchRun{1001, back[rng.Pick(2)]})
+		rest := append(append([]variant{}, variants[:4]...), variants[6:]...)
+		batches = append(batches, batchRun{1001, rest[rng.Pick(len(rest))]})
 	}
 	for _, b := range batches {
 		scen++
